@@ -997,6 +997,19 @@ def float_step_loop(chk, uwg):
                                            'loop_bound_deviations': len(suspects)}
 
 
+def customs_in_zones(chk, uwg):
+    """Sixth round (family in harness/w2_util.py): every run with a custom schedule set above is in zone 1A. The zone setter
+    accepts 18 names, the library has 16 columns (1B and 5C stand for 1A and 5B): custom pairs in EVERY accepted zone."""
+    import w2_util as W
+    n, bad, br, zones = W.customs_in_every_zone(chk, uwg, finite_records)
+    chk.direct('custom-schedule-sets-in-every-accepted-zone(18 zone names incl. the aliases 1B / 5C; new type / replacing a DOE type)',
+               n, n, 'a custom (BEMDef, SchDef) pair built with the real constructors - as a NEW type and as a replacement of '
+               'largeoffice/pst80 - in a stock beside a DOE row, in each of the %d zone names the zone setter accepts (%s; the '
+               'simulated ones also in lower case; quick: every other combination, both kinds in 1B and 5C): generate() must select '
+               'the custom pair; in 1A, 1B, 5C, 8 and further zones (quick: two drawn, thorough: all) a 1-day run (dtsim 300) must give '
+               '24 complete finite in-bound records' % (len(zones), ' '.join(zones)), mismatches=bad, branches=br)
+
+
 def run(chk):
     chk.proof(MODULE, THEOREMS, extra_modules=['UwgVerif.Props.C06'])
     if chk.tier == 'thorough':
@@ -1205,6 +1218,7 @@ def run(chk):
                    'raised' if nfatal else 'returned valid records'), mismatches=bad3)
     not_a_number_tokens(chk, uwg, work, rows)
     accepted_schedule_sets(chk, uwg, work)
+    customs_in_zones(chk, uwg)
     changed_after_generate(chk, work)
     write_after_failure(chk, work)
     float_step_loop(chk, uwg)
